@@ -34,6 +34,14 @@ Theorem C19_stored_cycles_share_one_sense : forall (c0 : R * R) (t : list (R * R
   (area2 ROps (stored_cycle c0 t) <= 0)%R /\ area2 ROps (stored_cycle c0 t) = (- Rabs (area2 ROps (c0 :: t)))%R.
 Proof. intros c0 t. split; [apply stored_cycles_share_one_sense|apply stored_cycle_area]. Qed.
 
+(* ... and the vertex list on which add_region takes the sign IS that doubled list: walking a closed region, every step contributes the numbers
+   of both of its end points, and a corner gets the same number in the step that ends at it and in the step that starts from it *)
+Theorem C19_region_vertex_list_is_doubled : forall c0 rest vs es ens vlist vs' es',
+  region_edges (c0 :: rest) vs es = (ens, vlist, vs', es') ->
+  exists n0 ns, length ns = length rest /\ vlist = dbl n0 ns /\
+                (rest <> [] -> find_vertex c0 vs' = Some n0) /\ Forall2 (fun c n => find_vertex c vs' = Some n) rest ns.
+Proof. intros c0 rest vs es ens vlist vs' es' H. exact (proj2 (region_edges_vlist (c0 :: rest) vs es ens vlist vs' es' H)). Qed.
+
 Example C19_two_squares :
   let st := lattice_elements [[(0, 0); (1, 0); (1, 1); (0, 1)]; [(1, 0); (2, 0); (2, 1); (1, 1)]]%Q in
   (length (tv st), length (te st), lattice_cells st) = (6%nat, 7%nat, [(1, [1; 2; 3; 4]); (2, [2; 5; 6; 3])]).
@@ -46,3 +54,4 @@ Print Assumptions C19_same_edge_same_id.
 Print Assumptions C19_lattice_cells_keys.
 Print Assumptions C19_area_of_doubled_list.
 Print Assumptions C19_stored_cycles_share_one_sense.
+Print Assumptions C19_region_vertex_list_is_doubled.
